@@ -1023,9 +1023,8 @@ fn check_resolve(mask: Mask, what: &str, reg: &PortableRegistry) -> Check {
     let r = core::catch(|| {
         for &id in &ids {
             let got = reg.resolve(id);
-            if (id as usize) < n && got.is_none() {
-                return Some((id, "none for an id in range"));
-            }
+            // (what an id *in* range resolves to on an ill-formed registry is
+            // not C14's business: C01 speaks about well-formed ones)
             if (id as usize) >= n && got.is_some() {
                 return Some((id, "some for an id out of range"));
             }
